@@ -1215,6 +1215,11 @@ class ExprMixin:
             self.alloc_block = saved_block
         if block is not None and block["count"]:
             self.commit_alloc_block(block, st)
+        for f in st2.pc[len(st.pc):]:
+            # facts established while evaluating the element expression that do not depend on the position q (e.g. the
+            # postconditions of an observer contract call, quantified over q) hold in the enclosing state as well (as in ev_DictComp)
+            if not any(v.eq(q) for v in _free_consts(f)):
+                st.assume(f)
         # may-raise conditions recorded under the guard mention q: close them existentially
         self.close_mayraise(q)
         eshape = shape_of(elt)
